@@ -380,12 +380,17 @@ inline std::string sym_res(RK k, Res o, Res e)
 // ------------------------------------------------------------------ tasks
 constexpr std::uint32_t kRandBlock = 16384;
 constexpr std::uint32_t kMaxBlock  = 1u << 17;
+inline std::uint32_t& max_block()
+{
+    static std::uint32_t v = kMaxBlock; // evaluations per enumerated block (bulk units raise it)
+    return v;
+}
 
 enum VK : unsigned char { VK_ALL, VK_DENSE, VK_GRID, VK_UNARY, VK_CUSTOM };
 struct BlockDesc {
     VK xk, yk;
     std::uint32_t ylo, yhi; // range of indices into the y set (unary: into the x set)
-    unsigned char overlap;  // 0: nothing enumerated elsewhere; 1: all16 x grid; 2: grid x all16
+    unsigned char overlap;  // 0: nothing enumerated elsewhere; 1: all16 x grid; 2: grid x all16; 3: all16 x all16 (bulk units)
     char const* cls;
 };
 struct Task {
@@ -529,6 +534,14 @@ inline void run_task(Task const& t, int block, vf::Case& cs)
     }
     Set const& xs = t.xset(b.xk);
     Set const& ys = t.yset(b.yk);
+    // tuples that another enumerated block (of this or of the standard units) already owns are not counted as distinct
+    std::vector<unsigned char> xflag; // bit0: x in grid(A), bit1: x in dense(A)
+    if (b.overlap) {
+        xflag.resize(xs.size());
+        for (std::size_t i = 0; i < xs.size(); ++i) {
+            xflag[i] = (unsigned char)((in_set(t.sx->grid, xs[i]) ? 1 : 0) | (in_set(t.sx->dense(t.wx), xs[i]) ? 2 : 0));
+        }
+    }
     for (std::uint32_t j = b.ylo; j < b.yhi; ++j) {
         i128 y       = ys[j];
         bool y_dense = false, y_grid = false;
@@ -536,14 +549,17 @@ inline void run_task(Task const& t, int block, vf::Case& cs)
             y_dense = in_set(t.sy->dense(t.wy), y);
             y_grid  = in_set(t.sy->grid, y);
         }
+        std::size_t i = 0;
         for (i128 x : xs) {
+            std::size_t k = i++;
             if (!t.dom(x, y)) { continue; }
             c.eval(x, y);
             if (b.overlap == 0) {
                 ++c.distinct;
             } else {
-                // do not count tuples that another enumerated block already has
-                bool dup = (y_dense && in_set(t.sx->dense(t.wx), x)) || (b.overlap == 2 && t.wx == 16 && y_grid);
+                bool dup = (y_dense && (xflag[k] & 2));
+                if (b.overlap == 2) { dup = dup || (t.wx == 16 && y_grid); }
+                if (b.overlap == 3) { dup = dup || (t.wx == 16 && y_grid) || (t.wy == 16 && (xflag[k] & 1)); }
                 c.distinct += dup ? 0 : 1;
             }
         }
@@ -566,7 +582,7 @@ inline void add_unary_blocks(std::vector<BlockDesc>& out, std::size_t count, cha
 inline void add_chunks(std::vector<BlockDesc>& out, VK xk, VK yk, std::size_t nx, std::size_t ny, unsigned char ov, char const* cls)
 {
     if (nx == 0 || ny == 0) { return; }
-    std::uint32_t per = std::uint32_t(std::max<std::size_t>(1, kMaxBlock / nx));
+    std::uint32_t per = std::uint32_t(std::max<std::size_t>(1, max_block() / nx));
     for (std::uint32_t s = 0; s < ny; s += per) { out.push_back({xk, yk, s, std::uint32_t(std::min<std::size_t>(ny, s + per)), ov, cls}); }
 }
 
@@ -647,7 +663,7 @@ void reg_unary(bool random = true)
     tasks().push_back(std::move(t));
 }
 template <class Op>
-void reg_binary(bool random = true)
+void reg_binary(bool random = true, unsigned char custom_overlap = 0, char const* custom_cls = nullptr)
 {
     using A = typename Op::A;
     using B = typename Op::B;
@@ -667,8 +683,8 @@ void reg_binary(bool random = true)
     if constexpr (HasYset<Op>) {
         static Set const ys = to_set(Op::yset());
         t.custom_y          = &ys;
-        add_chunks(t.blocks, VK_UNARY, VK_CUSTOM, t.xset(VK_UNARY).size(), ys.size(), 0,
-            W<A> <= 16 ? "all-values-x-second-arg-set" : "structured-x-second-arg-set");
+        add_chunks(t.blocks, VK_UNARY, VK_CUSTOM, t.xset(VK_UNARY).size(), ys.size(), custom_overlap,
+            custom_cls ? custom_cls : W<A> <= 16 ? "all-values-x-second-arg-set" : "structured-x-second-arg-set");
         t.has_random = random && W<A> > 8;
     } else {
         add_chunks(t.blocks, VK_DENSE, VK_DENSE, t.sx->dense(t.wx).size(), t.sy->dense(t.wy).size(), 0,
@@ -679,6 +695,23 @@ void reg_binary(bool random = true)
     }
     tasks().push_back(std::move(t));
 }
+
+// bulk wrapper: the second argument sweeps every Stride-th value of a (16-bit) type, the first every value
+template <class Op, int Stride = 1>
+struct AllY : Op {
+    static std::vector<typename Op::B> const& yset()
+    {
+        using B = typename Op::B;
+        static std::vector<B> const v = [] {
+            std::vector<B> r;
+            for (long i = long(lo<B>); i <= long(hi<B>); ++i) {
+                if ((i - long(lo<B>)) % Stride == Stride / 2) { r.push_back(B(i)); }
+            }
+            return r;
+        }();
+        return v;
+    }
+};
 
 // ------------------------------------------------------------------ plan / case mapping
 struct Plan {
